@@ -81,11 +81,12 @@ def m60Suffix (app : Model.Seq.App) (ctx : Model.Context) (spec : Spec.Result) :
     s!" m60p{k}={showHalt r.halt},{cyc},{if same then "same" else "DIFF"},{r.ticks},{hex16 dig}"
   "".intercalate (m60Pars.map one) ++ s!" r60={if Model.Mvp60.RegOnly app then 1 else 0}{if Model.Mvp60.StraightLine app then 1 else 0}{if Model.Mvp60.StraightLineRet app then 1 else 0}{if Model.Mvp60.BranchOnly app then 1 else 0}"
 
-/-- which parallelisms of the MVP-6.1 model are evaluated (as `m60Pars`; `VERIF_M61=all|none` overrides) -/
+/-- which parallelisms of the MVP-6.1 model are evaluated: K = 2 in the quick tier (K = 1, 2 cost +15 … +30 % of the quick
+checks' wall time, the model has no idle-skip), 1..4 under `VERIF_TIER=thorough`; `VERIF_M61=all|none` overrides -/
 initialize m61Pars : List Nat ← do
   let tier ← IO.getEnv "VERIF_TIER"
   let opt ← IO.getEnv "VERIF_M61"
-  return if tier == some "thorough" || opt == some "all" then [1, 2, 3, 4] else if opt == some "none" then [] else [1, 2]
+  return if tier == some "thorough" || opt == some "all" then [1, 2, 3, 4] else if opt == some "none" then [] else [2]
 
 /-- the cycle-accurate model of MVP-6.1 (`Model.Mvp61`) with eu = wu = 1..4, in the format of `m60Suffix`:
 ` m61pK=<halt>,<cycles>,<same|DIFF>,<ticks>,<digest of final registers and memory>` -/
